@@ -2,7 +2,9 @@
 json_parser handles primitive json parsing. It doesn't handle unicode or
 numbers in scientific notation.
 """
-from insights.parsr import (Colon, Comma, EOF, Forward, Literal, LeftBracket,
+import string
+
+from insights.parsr import (Colon, Comma, EOF, EmptyQuotedString, Forward, Literal, LeftBracket,
         LeftCurly, Number, RightBracket, RightCurly, QuotedString, WS)
 
 
@@ -19,10 +21,13 @@ JsonObject = Forward()
 TRUE = Literal("true", value=True)
 FALSE = Literal("false", value=False)
 NULL = Literal("null", value=None)
-SimpleValue = (Number | QuotedString | JsonObject | JsonArray | TRUE | FALSE | NULL)
+# QuotedString needs at least one character; "" is a JSON string too
+String = (QuotedString | EmptyQuotedString(string.printable))
+SimpleValue = (Number | String | JsonObject | JsonArray | TRUE | FALSE | NULL)
 JsonValue = (WS >> SimpleValue << WS)
-Key = (QuotedString << Colon)
+Key = (String << Colon)
 KVPairs = (((WS >> Key) + JsonValue).sep_by(Comma))
-JsonArray <= (LeftBracket >> JsonValue.sep_by(Comma) << RightBracket)
-JsonObject <= (LeftCurly >> KVPairs.map(lambda res: dict((k, v) for (k, v) in res)) << RightCurly)
+# WS before the closing bracket: an empty container may hold white space ("[ ]", "{ }")
+JsonArray <= (LeftBracket >> JsonValue.sep_by(Comma) << (WS >> RightBracket))
+JsonObject <= (LeftCurly >> KVPairs.map(lambda res: dict((k, v) for (k, v) in res)) << (WS >> RightCurly))
 Top = JsonValue + EOF
